@@ -2,6 +2,7 @@ SPECIFICATION Spec
 CONSTANTS
   L = 2
   Lens = {1, 2, 3}
+  Spread = FALSE
   MaxCycles = 1
   MaxRootUpdates = 2
   Times = {0}
